@@ -602,6 +602,220 @@ pub fn replay(ctx: &Ctx, v: &Value) -> Report {
     rep
 }
 
+// ---------------- collected searches and readers that lag behind the connection loss ----------------
+
+/// `search()` (which collects a whole result) must fail when the connection is lost before the
+/// SearchResultDone, and return everything when the Done made it; a streaming reader that only starts
+/// reading after the connection has gone must still get every item that had been delivered, then the
+/// end (Done delivered) or an error (Done not delivered).
+fn run_late_reader_case(i: u64, rng: &mut Rng, rep: &mut Report, verbose: bool) {
+    let n = rng.usize(6);
+    let done_sent = rng.bool();
+    let collect = rng.bool();
+    let fault = rng.below(3);
+    let adapted = rng.bool();
+    let rt = runtime(rng.next());
+    let obs = rt.block_on(async move {
+        let c = connect();
+        let mut ldap = c.ldap;
+        let mut server = c.server;
+        let client = tokio::spawn(async move {
+            if collect {
+                match world::watchdog(Caught::new(ldap.search("op=1", Scope::Subtree, "(a=b)", vec!["*"]))).await {
+                    Ok(Ok(Ok(r))) => format!("Ok(entries={},rc={},text={})", r.0.len(), r.1.rc, r.1.text),
+                    Ok(Ok(Err(e))) => format!("Err({})", world::err_class(&e)),
+                    Ok(Err(p)) => format!("Panic({})", p.site()),
+                    Err(()) => "Hung".into(),
+                }
+            } else {
+                let adapters: Vec<Box<dyn ldap3::adapters::Adapter<'static, String, Vec<String>>>> = if adapted { vec![Box::new(ldap3::adapters::EntriesOnly::new())] } else { vec![] };
+                let mut st = match ldap.streaming_search_with(adapters, "op=1", Scope::Subtree, "(a=b)", vec!["*".to_string()]).await {
+                    Ok(s) => s,
+                    Err(e) => return format!("start:Err({})", world::err_class(&e)),
+                };
+                // lag: read only after the server has finished and the connection is gone
+                tokio::time::sleep(std::time::Duration::from_millis(500)).await;
+                let mut k = 0;
+                let end = loop {
+                    match world::watchdog(Caught::new(st.next())).await {
+                        Ok(Ok(Ok(Some(_)))) => k += 1,
+                        Ok(Ok(Ok(None))) => break "End".to_string(),
+                        Ok(Ok(Err(e))) => break format!("Err({})", world::err_class(&e)),
+                        Ok(Err(p)) => break format!("Panic({})", p.site()),
+                        Err(()) => break "Hung".to_string(),
+                    }
+                };
+                let r = st.finish().await;
+                format!("Stream(items={},{},finish-rc={})", k, end, r.rc)
+            }
+        });
+        let w = server.request().await;
+        let id = w.and_then(|w| w.msg.ok()).map(|m| m.id).unwrap_or(1);
+        let mut bytes = vec![];
+        for k in 0..n {
+            bytes.extend_from_slice(&ber::encode_min(&resp_node(id, &Resp::Entry { dn: format!("e={}", k).into_bytes(), attrs: vec![] }, None)));
+        }
+        if done_sent {
+            bytes.extend_from_slice(&ber::encode_min(&resp_node(id, &Resp::Done(Res::ok("t:done")), None)));
+        }
+        server.send(&bytes);
+        settle().await;
+        match fault {
+            0 => server.eof(),
+            1 => server.read_error(ErrorKind::ConnectionReset),
+            _ => {
+                server.send(&[0x30, 0x03, 0x04, 0x01, 0x41]);
+                settle().await;
+                server.eof();
+            }
+        }
+        let out = client.await.unwrap_or_else(|_| "task-died".into());
+        let _ = world::watchdog(c.driver).await;
+        out
+    });
+    let replay = json!({"lane":"late_readers","case":i,"items":n,"done_sent":done_sent,"collect":collect,"fault":fault,"adapted":adapted});
+    let what = if collect { "search()" } else if adapted { "lagging-adapted-stream" } else { "lagging-stream" };
+    let want = if collect {
+        if done_sent { format!("Ok(entries={},rc=0,text=t:done)", n) } else { "Err(".to_string() }
+    } else if done_sent {
+        format!("Stream(items={},End,finish-rc=0)", n)
+    } else {
+        format!("Stream(items={},Err(", n)
+    };
+    if !obs.starts_with(&want) {
+        let sig = if obs.contains("Hung") {
+            "never-completes"
+        } else if obs.contains("Panic") {
+            "panics"
+        } else if !done_sent && (obs.starts_with("Ok(") || obs.contains(",End,")) {
+            "connection-loss-before-the-final-result-reported-as-success"
+        } else {
+            "delivered-responses-not-returned"
+        };
+        rep.violation(format!("C04:{}:{}", what, sig), format!("{} entries{} then fault {}: got {} expected {}...", n, if done_sent { " + Done" } else { "" }, fault, obs, want), replay);
+    }
+    if verbose {
+        println!("{} n={} done={} fault={} -> {}", what, n, done_sent, fault, obs);
+    }
+    rep.count(&format!("cases_{}", what), 1);
+    if i < 2 {
+        rep.sample(json!({"lane":"late_readers","case":i,"what":what,"items":n,"done_sent":done_sent,"observed":obs}));
+    }
+    rep.case(Some(fnv(format!("{}{}{}{}{}", n, done_sent, collect, fault, adapted).as_bytes())));
+}
+
+pub fn late_readers(ctx: &Ctx) -> Report {
+    let n = ctx.n(20_000, 5_000_000);
+    par_cases(ctx, "late_readers", n, ctx.secs(20, 300), |i, rng, rep| run_late_reader_case(i, rng, rep, false))
+}
+
+// ---------------- unbind while the driver is stuck writing ----------------
+
+/// The peer has stopped reading, the driver is stuck writing an earlier request, and unbind() is
+/// called with a timeout that expires before the driver gets to it. Once the peer reads again the
+/// unbind must still take effect: UnbindRequest on the wire, transport shut, pending work failed,
+/// drive() returns.
+fn run_unbind_stall_case(i: u64, rng: &mut Rng, rep: &mut Report, verbose: bool) {
+    let pending_before = rng.usize(3);
+    let big = 1000 + rng.usize(200_000);
+    let unbind_timeout = *rng.pick(&[0u64, 1, 50, 200]);
+    let rt = runtime(rng.next());
+    let obs = rt.block_on(async move {
+        let c = connect();
+        let ldap = c.ldap;
+        let mut server = c.server;
+        let ctl = server.ctl();
+        // operations that are already on the wire and unanswered
+        let mut waiters = vec![];
+        for k in 0..pending_before {
+            let l = ldap.clone();
+            waiters.push(tokio::spawn(single(l, k)));
+            let _ = server.request().await;
+        }
+        ctl.stall_writes_after(rng_stall(big));
+        // a large request the driver gets stuck on
+        let mut lx = ldap.clone();
+        let x = tokio::spawn(async move {
+            match world::watchdog(Caught::new(lx.add(&format!("op=99,cn={}", "x".repeat(big)), vec![("a", std::collections::HashSet::from(["v"]))]))).await {
+                Ok(Ok(Ok(_))) => "Ok".to_string(),
+                Ok(Ok(Err(e))) => format!("Err({})", world::err_class(&e)),
+                Ok(Err(p)) => format!("Panic({})", p.site()),
+                Err(()) => "Hung".into(),
+            }
+        });
+        settle().await;
+        let mut lu = ldap.clone();
+        lu.with_timeout(std::time::Duration::from_millis(unbind_timeout));
+        let u = match world::watchdog(Caught::new(lu.unbind())).await {
+            Ok(Ok(Ok(()))) => "Ok".to_string(),
+            Ok(Ok(Err(e))) => format!("Err({})", world::err_class(&e)),
+            Ok(Err(p)) => format!("Panic({})", p.site()),
+            Err(()) => "Hung".into(),
+        };
+        tokio::time::sleep(std::time::Duration::from_millis(300)).await;
+        ctl.release_writes();
+        // read whatever arrives until the client shuts the transport (or nothing more can happen)
+        let mut kinds = vec![];
+        loop {
+            match world::watchdog(server.request()).await {
+                Ok(Some(w)) => kinds.push(w.msg.map(|m| m.op.kind().to_string()).unwrap_or_else(|_| "undecodable".into())),
+                Ok(None) => break,
+                Err(()) => {
+                    kinds.push("SERVER-STILL-WAITING".into());
+                    break;
+                }
+            }
+        }
+        let shut = server.client_shutdown_called() || server.client_dropped();
+        // a server closes the connection when it is told to unbind (or, here, at the latest now)
+        server.eof();
+        let xo = x.await.unwrap_or_else(|_| "task-died".into());
+        let mut wo = vec![];
+        for w in waiters {
+            wo.push(format!("{:?}", w.await.unwrap_or(Obs::Hung)));
+        }
+        let d = match world::watchdog(c.driver).await {
+            Ok(_) => "returned",
+            Err(()) => "Hung",
+        };
+        drop(ldap);
+        (u, kinds, shut, xo, wo, d.to_string())
+    });
+    let (u, kinds, shut, xo, wo, d) = obs;
+    let replay = json!({"lane":"unbind_under_backpressure","case":i});
+    let desc = format!("unbind timeout {} ms -> {}; requests seen after the peer resumed reading {:?}; transport shut {}; stuck add {}; earlier operations {:?}; driver {}", unbind_timeout, u, kinds, shut, xo, wo, d);
+    if !kinds.iter().any(|k| k == "unbind") {
+        rep.violation("C04:unbind-with-expired-timeout:unbind-request-never-sent", desc.clone(), replay.clone());
+    }
+    if !shut {
+        rep.violation("C04:unbind-with-expired-timeout:transport-not-closed", desc.clone(), replay.clone());
+    }
+    if d == "Hung" {
+        rep.violation("C04:unbind-with-expired-timeout:driver-runs-on", desc.clone(), replay.clone());
+    }
+    if xo == "Hung" || wo.iter().any(|w| w.contains("Hung")) {
+        rep.violation("C04:unbind-with-expired-timeout:pending-operation-hangs", desc.clone(), replay.clone());
+    }
+    if verbose {
+        println!("{}", desc);
+    }
+    rep.count(&format!("unbind_call_{}", u.split('(').next().unwrap_or("?")), 1);
+    if i < 2 {
+        rep.sample(json!({"lane":"unbind_under_backpressure","case":i,"observed":desc}));
+    }
+    rep.case(Some(fnv(format!("{}{}{}", pending_before, big, unbind_timeout).as_bytes())));
+}
+
+fn rng_stall(big: usize) -> usize {
+    // let a part of the large request through, then stall
+    big / 3
+}
+
+pub fn unbind_under_backpressure(ctx: &Ctx) -> Report {
+    let n = ctx.n(4_000, 1_000_000);
+    par_cases(ctx, "unbind_under_backpressure", n, ctx.secs(20, 300), |i, rng, rep| run_unbind_stall_case(i, rng, rep, false))
+}
+
 // ---------------- malformed responses to pending operations ----------------
 
 /// A frame the client cannot make sense of (well-formed envelope or not) arrives while a bind and a
